@@ -64,7 +64,7 @@ var macNames = []string{"ma", "mb", "mc"}
 var pkgNames = []string{"pka", "pkb"}
 var flavorNames = []string{"fla", "flb", "flc"}
 var genNames = []string{"ga", "gb"}
-var classNames = []string{"cla", "clb"}
+var classNames = []string{"cla", "clb", "clm", "clz", "aab"}
 
 // double quotes and backslashes are escaped by the pretty printer since repo_fixes/C19-17
 var shortDocs = []string{"a short doc", "doc two", "x", "counts things", "the 2nd value (approx.)", "has \\\"quote\\\" inside", "back\\\\slash", "say \\\"hi\\\" \\\\ twice"}
@@ -1016,9 +1016,16 @@ func (g *sessGen) step() {
 			}
 		}
 		g.hist("op:defclass")
+		// any class defined so far as a superclass, sometimes two: the names are in every order relative to the inheritance
 		super := ""
-		if len(g.classes) > 0 && g.r.Chance(60) {
-			super = g.classes[len(g.classes)-1]
+		if len(g.classes) > 0 && g.r.Chance(70) {
+			super = g.classes[g.r.Intn(len(g.classes))]
+			if len(g.classes) > 1 && g.r.Chance(25) {
+				if s2 := g.classes[g.r.Intn(len(g.classes))]; s2 != super {
+					g.hist("op:defclass-two-superclasses")
+					super += " " + s2
+				}
+			}
 		}
 		g.add(fmt.Sprintf("(defclass %s (%s) ((%s-s1 :initarg :%s-s1 :initform %d) (%s-s2 :initform '(a b) :allocation :class)) (:documentation \"a class\"))", n, super, n, n, g.r.Intn(90), n))
 		g.classes = append(g.classes, n)
